@@ -78,3 +78,6 @@ PROP = dict(
     assumptions=["ranges reaching Normalize are well formed (0 <= low, hi = 0 or low < hi) and sorted by RangeSorter.Less, as both call sites ensure"],
     trusted=world.WORLD_TRUSTED,
 )
+
+from ..pin import add_pin
+PROP = add_pin(PROP)
